@@ -1,5 +1,6 @@
 import props_parser
 import props_lalr
+import props_lexer
 CHECKS = {
     "C01": props_parser.c01,
     "C03": props_parser.c03,
@@ -7,4 +8,8 @@ CHECKS = {
     "C09": props_parser.c09,
     "C04": props_lalr.c04,
     "C05": props_lalr.c05,
+    "C02": props_lexer.c02,
+    "C07": props_lexer.c07,
+    "C08": props_lexer.c08,
+    "C11": props_lexer.c11,
 }
